@@ -205,8 +205,15 @@ fn add_wrappers(text: &str) -> Result<String, String> {
     if !out.ends_with('\n') {
         out.push('\n');
     }
+    // a wrapper enters its rule the way a caller at top level does (non-atomic); in a grammar that
+    // has no normal rule the wrappers are written as `!` rules so that it still has none
+    let no_normal = !g.rules.iter().any(|r| r.kind == refpeg::Kind::Normal);
     for r in &g.rules {
-        out.push_str(&format!("w__{} = {{ {} }}\n", r.name, r.name));
+        if no_normal && (r.name == "WHITESPACE" || r.name == "COMMENT") {
+            // ... and no explicit mention of the skip rules either (they are not driven as entry rules there)
+            continue;
+        }
+        out.push_str(&format!("w__{} = {}{{ {} }}\n", r.name, if no_normal { "!" } else { "" }, r.name));
     }
     Ok(out)
 }
